@@ -414,20 +414,98 @@ theorem read_hier (k w : Str) (j : Nat) (hne : k ≠ []) (hhead : k.head? ≠ so
 
 /-! ### what `write_key` accepts, in plain terms -/
 
-theorem longKeyScan_none_iff (k : Str) : longKeyScan k = none ↔ '=' ∉ k ∧ ∀ c ∈ k, c.isLower = false := by
+/-- keys which cfitsio stores verbatim (the complement is what fixes/C16-5.diff makes `write_key` refuse: empty or blank key,
+    leading/trailing blank, explicit `HIERARCH ` prefix, END / HISTORY / CONTINUE, non-printable characters) -/
+structure PlainKey (k : Str) : Prop where
+  ne : k ≠ []
+  head : k.head? ≠ some ' '
+  last : k.getLast? ≠ some ' '
+  noHier : hierPrefix.isPrefixOf k = false
+  notEnd : k ≠ endKey
+  notHistory : k ≠ historyKey
+  notContinue : k ≠ continueKey
+  print : ∀ c ∈ k, printable c = true
+
+/-- values which `ffprec` does not alter -/
+def PlainVal (v : Str) : Prop := ∀ c ∈ v, printable c = true
+
+instance (v : Str) : Decidable (PlainVal v) := by unfold PlainVal; infer_instance
+
+theorem outOfRange_key (c : Char) : outOfRange C16.keyCharRange c = !printable c := by
+  simp only [outOfRange, C16.keyCharRange, printable]
+  by_cases h1 : c.toNat < 32 <;> by_cases h2 : c.toNat > 126 <;> simp [h1, h2] <;> omega
+
+theorem outOfRange_value (c : Char) : outOfRange C16.valueCharRange c = !printable c := by
+  simp only [outOfRange, C16.valueCharRange, printable]
+  by_cases h1 : c.toNat < 32 <;> by_cases h2 : c.toNat > 126 <;> simp [h1, h2] <;> omega
+
+theorem longKeyScan_none_iff (k : Str) :
+    longKeyScan k = none ↔ (∀ c ∈ k, printable c = true) ∧ '=' ∉ k ∧ ∀ c ∈ k, c.isLower = false := by
   induction k with
   | nil => simp [longKeyScan]
   | cons c r ih =>
     unfold longKeyScan
-    by_cases h1 : c = '='
-    · subst h1; simp
-    · have h1' : (c == '=') = false := by simpa using h1
-      have h1'' : ¬ '=' = c := fun x => h1 x.symm
-      by_cases h2 : c.isLower = true
-      · simp [h1', h2]
-      · have h2' : c.isLower = false := by simpa using h2
-        simp only [h1', Bool.false_eq_true, if_false, h2', ih, List.mem_cons, not_or, h1'', not_false_eq_true, true_and,
-          forall_eq_or_imp]
+    rw [outOfRange_key]
+    by_cases h0 : printable c = true
+    · simp only [h0, Bool.not_true, Bool.false_eq_true, if_false]
+      by_cases h1 : c = '='
+      · subst h1; simp
+      · have h1' : (c == '=') = false := by simpa using h1
+        have h1'' : ¬ '=' = c := fun x => h1 x.symm
+        by_cases h2 : c.isLower = true
+        · simp [h1', h2]
+        · have h2' : c.isLower = false := by simpa using h2
+          simp only [h1', Bool.false_eq_true, if_false, h2', ih, List.mem_cons, not_or, h1'', not_false_eq_true, true_and,
+            forall_eq_or_imp, h0]
+    · have h0' : printable c = false := by simpa using h0
+      simp [h0']
+
+theorem any_outOfRange_value (v : Str) : v.any (outOfRange C16.valueCharRange) = false ↔ PlainVal v := by
+  rw [List.any_eq_false]
+  unfold PlainVal
+  constructor
+  · intro h c hc; have := h c hc; rw [outOfRange_value] at this; simpa using this
+  · intro h c hc; rw [outOfRange_value, h c hc]; simp
+
+theorem edgeBlank_false_iff (k : Str) :
+    edgeBlank k = false ↔ k ≠ [] ∧ k.head? ≠ some ' ' ∧ k.getLast? ≠ some ' ' := by
+  unfold edgeBlank
+  cases k with
+  | nil => simp
+  | cons a r => simp
+
+theorem strncmpEq_prefix (lit key : List Char) (hl : '\x00' ∉ lit) :
+    strncmpEq lit.length (cstr lit) (cstr key) = lit.isPrefixOf key := by
+  induction lit generalizing key with
+  | nil => simp [strncmpEq]
+  | cons a r ih =>
+    have ha : a ≠ '\x00' := fun x => hl (by simp [x])
+    have hr : '\x00' ∉ r := fun x => hl (by simp [x])
+    cases key with
+    | nil =>
+      simp only [cstr, List.cons_append, List.nil_append, List.length_cons, strncmpEq, ne_eq, ha, not_false_eq_true, if_true,
+        List.isPrefixOf]
+    | cons b s =>
+      simp only [cstr, List.cons_append, List.length_cons, strncmpEq, List.isPrefixOf]
+      by_cases hab : a = b
+      · subst hab
+        simp only [ne_eq, not_true_eq_false, if_false, ha, beq_self_eq_true, Bool.true_and]
+        exact ih s hr
+      · simp [hab]
+
+theorem writeReserved_table : C16.writeReservedPrefixes = [(hierPrefix, 9)] ∧
+    C16.writeReservedExact = [endKey, historyKey, continueKey] := by decide
+
+theorem writeReserved_false_iff (k : Str) :
+    writeReserved k = false ↔ hierPrefix.isPrefixOf k = false ∧ k ≠ endKey ∧ k ≠ historyKey ∧ k ≠ continueKey := by
+  unfold writeReserved
+  rw [writeReserved_table.1, writeReserved_table.2]
+  have h9 : strncmpEq 9 (cstr hierPrefix) (cstr k) = hierPrefix.isPrefixOf k :=
+    strncmpEq_prefix hierPrefix k (by decide)
+  simp only [List.any_cons, List.any_nil, Bool.or_false, h9, Bool.or_eq_false_iff, beq_eq_false_iff_ne, ne_eq]
+  constructor
+  · rintro ⟨h1, h2, h3, h4⟩; exact ⟨h1, fun x => h2 x.symm, fun x => h3 x.symm, fun x => h4 x.symm⟩
+  · rintro ⟨h1, h2, h3, h4⟩; exact ⟨h1, fun x => h2 x.symm, fun x => h3 x.symm, fun x => h4 x.symm⟩
 
 theorem badShortChar_false_iff (c : Char) : badShortChar c = false ↔ (c.isUpper || c.isDigit) = true := by
   unfold badShortChar
@@ -447,77 +525,125 @@ theorem any_badShortChar_false_iff (k : Str) : k.any badShortChar = false ↔ Al
   · intro h c hc; exact (badShortChar_false_iff c).mp (by simpa using h c hc)
   · intro h c hc; simpa using (badShortChar_false_iff c).mpr (h c hc)
 
-/-- **what `write_key` accepts** (repaired code, constants of the source): the key is not reserved; a key of at most
-    8 characters consists of upper-case letters and digits and the value, every quote counted twice, has at most 68
-    characters; a longer key has no `=`, no lower-case letter, at most 66 characters, and key and value (quotes
-    counted twice) together have at most 67 characters. -/
+/-- the syntax and length tests of `write_key` on the key alone: an exception, or `maxdatalen` -/
+def keyCheck (key : Str) : Sum WErr Nat :=
+  if key.length + 1 ≤ C16.shortKeylenMax then
+    if key.any badShortChar then .inl .shortChar else .inr C16.shortMaxData
+  else
+    match longKeyScan key with
+    | some e => .inl e
+    | none =>
+      match C16.longKeyGuard with
+      | some (b, a) => if b + (key.length + 1) - 1 ≥ a then .inl .keyTooLong else .inr (longMaxData (key.length + 1))
+      | none => .inr (longMaxData (key.length + 1))
+
+theorem validate_eq (key val : Str) :
+    validate key val =
+      if reserved key then some .reserved else
+      if C16.edgeBlankCheck && edgeBlank key then some .edgeBlank else
+      if writeReserved key then some .reserved else
+      match keyCheck key with
+      | .inl e => some e
+      | .inr maxdatalen =>
+        if val.any (outOfRange C16.valueCharRange) then some .valueNonPrintable else
+        if val.length + countQuotes val > maxdatalen then some .valueTooLong else none := rfl
+
+theorem keyCheck_short (key : Str) (h : key.length ≤ 8) :
+    keyCheck key = if key.any badShortChar then .inl .shortChar else .inr 68 := by
+  unfold keyCheck
+  simp only [C16.shortKeylenMax, C16.shortMaxData, show key.length + 1 ≤ 9 by omega, if_true]
+
+theorem keyCheck_long (key : Str) (h : 9 ≤ key.length) :
+    keyCheck key = match longKeyScan key with
+      | some e => .inl e
+      | none => if 67 ≤ key.length then .inl .keyTooLong else .inr (67 - key.length) := by
+  unfold keyCheck
+  simp only [C16.shortKeylenMax, C16.longKeyGuard, longMaxData, C16.cardLen, C16.hierOverhead, sizeMod,
+    show ¬ key.length + 1 ≤ 9 by omega, if_false]
+  cases longKeyScan key with
+  | some e => rfl
+  | none =>
+    simp only
+    by_cases hg : 67 ≤ key.length
+    · rw [if_pos hg, if_pos (by omega)]
+    · rw [if_neg hg, if_neg (by omega)]
+      congr 1; omega
+
+/-- **what `write_key` accepts** (repaired code, constants and tables of the source): the key is not reserved,
+    not empty, has no blank at either end, does not start with `HIERARCH ` and is not END / HISTORY / CONTINUE; a
+    key of at most 8 characters consists of upper-case letters and digits and the value, every quote counted
+    twice, has at most 68 characters; a longer key is printable ASCII without `=` and lower-case letters, has at
+    most 66 characters, and key and value (quotes counted twice) together have at most 67 characters; the value
+    is printable ASCII. -/
 theorem validate_none_iff (key val : Str) :
     validate key val = none ↔
-      reserved key = false ∧
+      reserved key = false ∧ edgeBlank key = false ∧ writeReserved key = false ∧
       (key.length ≤ 8 → Alnum key ∧ val.length + countQuotes val ≤ 68) ∧
-      (9 ≤ key.length → ('=' ∉ key ∧ ∀ c ∈ key, c.isLower = false) ∧ key.length ≤ 66 ∧
-        key.length + (val.length + countQuotes val) ≤ 67) := by
-  unfold validate
-  simp only [C16.shortKeylenMax, C16.longKeyGuard, C16.shortMaxData, longMaxData, C16.cardLen, C16.hierOverhead, sizeMod]
+      (9 ≤ key.length → ((∀ c ∈ key, printable c = true) ∧ '=' ∉ key ∧ ∀ c ∈ key, c.isLower = false) ∧
+        key.length ≤ 66 ∧ key.length + (val.length + countQuotes val) ≤ 67) ∧
+      PlainVal val := by
+  rw [validate_eq]
   by_cases hr : reserved key = true
   · simp [hr]
-  · have hr' : reserved key = false := by simpa using hr
-    simp only [hr', Bool.false_eq_true, if_false, true_and]
-    by_cases hlen : key.length ≤ 8
-    · have h9 : key.length + 1 ≤ 9 := by omega
-      have hn9 : ¬ 9 ≤ key.length := by omega
-      simp only [h9, if_true, hlen, hn9, false_implies, and_true, true_implies]
-      rw [← any_badShortChar_false_iff]
-      by_cases hb : key.any badShortChar = true
-      · simp [hb]
-      · have hb' : key.any badShortChar = false := by simpa using hb
-        simp only [hb', Bool.false_eq_true, if_false, true_and]
-        by_cases hv : val.length + countQuotes val > 68
-        · simp only [hv, if_true]; constructor
-          · intro h; cases h
-          · intro h; omega
-        · simp only [hv, if_false, true_iff]; omega
-    · have h9 : ¬ key.length + 1 ≤ 9 := by omega
-      have hn9 : 9 ≤ key.length := by omega
-      simp only [h9, if_false, hlen, hn9, false_implies, true_and, true_implies]
-      rw [← longKeyScan_none_iff]
-      cases hs : longKeyScan key with
-      | some e => simp
-      | none =>
-        simp only [true_and]
-        by_cases hg : 80 ≤ 13 + key.length
-        · have hg' : 13 + (key.length + 1) - 1 ≥ 80 := by omega
-          simp only [hg', if_true]; constructor
-          · intro h; cases h
-          · intro h; omega
-        · have hg' : ¬ 13 + (key.length + 1) - 1 ≥ 80 := by omega
-          simp only [hg', if_false]
-          have e : (80 + 2 ^ 64 - (13 + (key.length + 1) - 1) % 2 ^ 64) % 2 ^ 64 = 67 - key.length := by omega
-          rw [e]
-          by_cases hv : val.length + countQuotes val > 67 - key.length
-          · simp only [hv, if_true]; constructor
-            · intro h; cases h
-            · intro h; omega
-          · simp only [hv, if_false, true_iff]; omega
+  have hr' : reserved key = false := by simpa using hr
+  by_cases he : edgeBlank key = true
+  · simp [hr', he, C16.edgeBlankCheck]
+  have he' : edgeBlank key = false := by simpa using he
+  by_cases hw : writeReserved key = true
+  · simp [hr', he', hw]
+  have hw' : writeReserved key = false := by simpa using hw
+  simp only [hr', he', hw', Bool.false_eq_true, if_false, Bool.and_false, true_and]
+  rw [← any_outOfRange_value]
+  by_cases hlen : key.length ≤ 8
+  · have hn9 : ¬ 9 ≤ key.length := by omega
+    rw [keyCheck_short key hlen, ← any_badShortChar_false_iff]
+    simp only [hlen, hn9, false_implies, true_and, true_implies]
+    by_cases hb : key.any badShortChar = true
+    · simp [hb]
+    have hb' : key.any badShortChar = false := by simpa using hb
+    simp only [hb', Bool.false_eq_true, if_false, true_and]
+    by_cases hp : val.any (outOfRange C16.valueCharRange) = true
+    · simp [hp]
+    have hp' : val.any (outOfRange C16.valueCharRange) = false := by simpa using hp
+    simp only [hp', Bool.false_eq_true, if_false, and_true]
+    by_cases hv : val.length + countQuotes val > 68
+    · simp only [hv, if_true]; constructor
+      · intro h; cases h
+      · intro h; omega
+    · simp only [hv, if_false, true_iff]; omega
+  · have hn9 : 9 ≤ key.length := by omega
+    rw [keyCheck_long key hn9, ← longKeyScan_none_iff]
+    simp only [hlen, hn9, false_implies, true_and, true_implies]
+    cases hs : longKeyScan key with
+    | some e => simp
+    | none =>
+      simp only [true_and]
+      by_cases hg : 67 ≤ key.length
+      · simp only [hg, if_true]; constructor
+        · intro h; cases h
+        · intro h; omega
+      simp only [hg, if_false]
+      by_cases hp : val.any (outOfRange C16.valueCharRange) = true
+      · simp [hp]
+      have hp' : val.any (outOfRange C16.valueCharRange) = false := by simpa using hp
+      simp only [hp', Bool.false_eq_true, if_false, and_true]
+      by_cases hv : val.length + countQuotes val > 67 - key.length
+      · simp only [hv, if_true]; constructor
+        · intro h; cases h
+        · intro h; omega
+      · simp only [hv, if_false, true_iff]; omega
+
+/-- an accepted key is one cfitsio stores verbatim, an accepted value one `ffprec` does not alter -/
+theorem validate_plain (key val : Str) (h : validate key val = none) : PlainKey key ∧ PlainVal val := by
+  obtain ⟨_, he, hw, hshort, hlong, hv⟩ := (validate_none_iff key val).mp h
+  obtain ⟨h1, h2, h3⟩ := (edgeBlank_false_iff key).mp he
+  obtain ⟨h4, h5, h6, h7⟩ := (writeReserved_false_iff key).mp hw
+  refine ⟨⟨h1, h2, h3, h4, h5, h6, h7, ?_⟩, hv⟩
+  by_cases hlen : key.length ≤ 8
+  · exact fun c hc => (alnum_facts c ((hshort hlen).1 c hc)).1
+  · exact (hlong (by omega)).1.1
 
 /-! ### one accepted entry through `write_fits_core` / `read_fits_core` -/
-
-/-- keys which cfitsio stores verbatim (the complement is the list of known findings of C16: empty or blank key,
-    leading/trailing blank, explicit `HIERARCH ` prefix, END / HISTORY / CONTINUE, non-printable characters) -/
-structure PlainKey (k : Str) : Prop where
-  ne : k ≠ []
-  head : k.head? ≠ some ' '
-  last : k.getLast? ≠ some ' '
-  noHier : hierPrefix.isPrefixOf k = false
-  notEnd : k ≠ endKey
-  notHistory : k ≠ historyKey
-  notContinue : k ≠ continueKey
-  print : ∀ c ∈ k, printable c = true
-
-/-- values which `ffprec` does not alter -/
-def PlainVal (v : Str) : Prop := ∀ c ∈ v, printable c = true
-
-instance (v : Str) : Decidable (PlainVal v) := by unfold PlainVal; infer_instance
 
 /-- number of blanks a FITS round trip appends to the value `v` stored under key `k` -/
 def padOf (k v : Str) : Nat :=
@@ -563,10 +689,11 @@ theorem entry_of_text (k v w : Str) (h : List Char) (hmk : mkCard k (ffs2c v) = 
   · unfold entryOfCard
     simp only [rstrip_card, hread.1, hres, Bool.false_eq_true, if_false, hread.2.1]
 
-theorem entry_survives (k v : Str) (hval : validate k v = none) (hk : PlainKey k) (hv : PlainVal v) :
+theorem entry_survives (k v : Str) (hval : validate k v = none) :
     ∃ card, cardOf (k, v) = some card ∧ card.length = 80 ∧ isEndCard card = false ∧
       entryOfCard card = some (k, v ++ blanks (padOf k v)) := by
-  obtain ⟨hres, hshort, hlong⟩ := (validate_none_iff k v).mp hval
+  obtain ⟨hk, hv⟩ := validate_plain k v hval
+  obtain ⟨hres, _, _, hshort, hlong, _⟩ := (validate_none_iff k v).mp hval
   have hl := length_dbl v
   have hwp : ∀ p, ∀ c ∈ v ++ blanks p, printable c = true := by
     intro p c hc
@@ -593,7 +720,7 @@ theorem entry_survives (k v : Str) (hval : validate k v = none) (hk : PlainKey k
     · rw [length_dbl_pad]
       simp only [List.length_append, length_blanks, List.length_cons, List.length_nil]; omega
   · have h9 : 9 ≤ k.length := by omega
-    obtain ⟨⟨heq, _⟩, h66, hfit⟩ := hlong h9
+    obtain ⟨⟨_, heq, _⟩, h66, hfit⟩ := hlong h9
     have hp : padOf k v = min (8 - (dbl v).length) (67 - k.length - (dbl v).length) := by
       unfold padOf; rw [if_neg hlen, hl]
     rw [hp]
@@ -624,8 +751,8 @@ theorem entry_survives (k v : Str) (hval : validate k v = none) (hk : PlainKey k
 
 /-! ### whole stores -/
 
-/-- every entry was accepted by `write_key` and is stored verbatim by cfitsio -/
-def Accepted (st : Store) : Prop := ∀ e ∈ st, validate e.1 e.2 = none ∧ PlainKey e.1 ∧ PlainVal e.2
+/-- every entry was accepted by `write_key` -/
+def Accepted (st : Store) : Prop := ∀ e ∈ st, validate e.1 e.2 = none
 
 /-- the store with every value padded as a FITS round trip pads it -/
 def padStore (st : Store) : Store := st.map fun e => (e.1, e.2 ++ blanks (padOf e.1 e.2))
@@ -644,8 +771,7 @@ theorem cards_of_accepted (st : Store) (h : Accepted st) :
   | nil => exact ⟨[], rfl, by simp, rfl⟩
   | cons e r ih =>
     obtain ⟨cards, h1, h2, h3⟩ := ih (fun x hx => h x (by simp [hx]))
-    obtain ⟨hv, hk, hp⟩ := h e (by simp)
-    obtain ⟨card, c1, _, c2, c3⟩ := entry_survives e.1 e.2 hv hk hp
+    obtain ⟨card, c1, _, c2, c3⟩ := entry_survives e.1 e.2 (h e (by simp))
     refine ⟨card :: cards, ?_, ?_, ?_⟩
     · rw [List.mapM_cons, show cardOf e = some card from c1, h1]; rfl
     · intro c hc
@@ -699,24 +825,23 @@ theorem padStore_idem (st : Store) : padStore (padStore st) = padStore st := by
 theorem accepted_padStore (st : Store) (h : Accepted st) : Accepted (padStore st) := by
   intro e he
   obtain ⟨x, hx, rfl⟩ := List.mem_map.mp he
-  obtain ⟨hv, hk, hp⟩ := h x hx
-  refine ⟨?_, hk, ?_⟩
-  · have hc := countQuotes_pad x.2 (padOf x.1 x.2)
-    obtain ⟨hres, hshort, hlong⟩ := (validate_none_iff x.1 x.2).mp hv
-    rw [validate_none_iff]
-    refine ⟨hres, ?_, ?_⟩
-    · intro hl
-      have hl : x.1.length ≤ 8 := hl
-      obtain ⟨ha, hd⟩ := hshort hl
-      refine ⟨ha, ?_⟩
-      show (x.2 ++ blanks (padOf x.1 x.2)).length + countQuotes (x.2 ++ blanks (padOf x.1 x.2)) ≤ 68
-      rw [hc]; unfold padOf; rw [if_pos hl]; omega
-    · intro hl
-      have hl : 9 ≤ x.1.length := hl
-      obtain ⟨hs, h66, hfit⟩ := hlong hl
-      refine ⟨hs, h66, ?_⟩
-      show x.1.length + ((x.2 ++ blanks (padOf x.1 x.2)).length + countQuotes (x.2 ++ blanks (padOf x.1 x.2))) ≤ 67
-      rw [hc]; unfold padOf; rw [if_neg (by omega)]; omega
+  have hv := h x hx
+  have hc := countQuotes_pad x.2 (padOf x.1 x.2)
+  obtain ⟨hres, hedge, hwr, hshort, hlong, hp⟩ := (validate_none_iff x.1 x.2).mp hv
+  rw [validate_none_iff]
+  refine ⟨hres, hedge, hwr, ?_, ?_, ?_⟩
+  · intro hl
+    have hl : x.1.length ≤ 8 := hl
+    obtain ⟨ha, hd⟩ := hshort hl
+    refine ⟨ha, ?_⟩
+    show (x.2 ++ blanks (padOf x.1 x.2)).length + countQuotes (x.2 ++ blanks (padOf x.1 x.2)) ≤ 68
+    rw [hc]; unfold padOf; rw [if_pos hl]; omega
+  · intro hl
+    have hl : 9 ≤ x.1.length := hl
+    obtain ⟨hs, h66, hfit⟩ := hlong hl
+    refine ⟨hs, h66, ?_⟩
+    show x.1.length + ((x.2 ++ blanks (padOf x.1 x.2)).length + countQuotes (x.2 ++ blanks (padOf x.1 x.2))) ≤ 67
+    rw [hc]; unfold padOf; rw [if_neg (by omega)]; omega
   · intro c hc
     rcases List.mem_append.mp hc with hc | hc
     · exact hp c hc
@@ -756,7 +881,7 @@ theorem mem_eraseFirst (st : Store) (k : Str) (e : Str × Str) (h : e ∈ eraseF
       · rw [h]; exact List.mem_cons_self
       · exact List.mem_cons_of_mem _ (ih h)
 
-theorem accepted_writeKey (st : Store) (k v : Str) (h : Accepted st) (hk : PlainKey k) (hv : PlainVal v) :
+theorem accepted_writeKey (st : Store) (k v : Str) (h : Accepted st) :
     Accepted (writeKey st k v).2 := by
   unfold writeKey
   cases hval : validate k v with
@@ -767,13 +892,13 @@ theorem accepted_writeKey (st : Store) (k v : Str) (h : Accepted st) (hk : Plain
       intro e he
       rcases mem_setFirst st k v e he with he | he
       · exact h e he
-      · rw [he]; exact ⟨hval, hk, hv⟩
+      · rw [he]; exact hval
     · simp only [hh, Bool.false_eq_true, if_false]
       intro e he
       rcases List.mem_append.mp he with he | he
       · exact h e he
       · have : e = (k, v) := by simpa using he
-        rw [this]; exact ⟨hval, hk, hv⟩
+        rw [this]; exact hval
 
 theorem accepted_removeKey (st : Store) (k : Str) (h : Accepted st) : Accepted (removeKey st k).2 := by
   unfold removeKey
@@ -795,25 +920,6 @@ theorem plainVal_showInt (n : Int) : PlainVal (showInt n) := by
   · exact hd _
 
 /-! ### `reservedFitsKeyword` is the prefix filter of its table -/
-
-theorem strncmpEq_prefix (lit key : List Char) (hl : '\x00' ∉ lit) :
-    strncmpEq lit.length (cstr lit) (cstr key) = lit.isPrefixOf key := by
-  induction lit generalizing key with
-  | nil => simp [strncmpEq]
-  | cons a r ih =>
-    have ha : a ≠ '\x00' := fun x => hl (by simp [x])
-    have hr : '\x00' ∉ r := fun x => hl (by simp [x])
-    cases key with
-    | nil =>
-      simp only [cstr, List.cons_append, List.nil_append, List.length_cons, strncmpEq, ne_eq, ha, not_false_eq_true, if_true,
-        List.isPrefixOf]
-    | cons b s =>
-      simp only [cstr, List.cons_append, List.length_cons, strncmpEq, List.isPrefixOf]
-      by_cases hab : a = b
-      · subst hab
-        simp only [ne_eq, not_true_eq_false, if_false, ha, beq_self_eq_true, Bool.true_and]
-        exact ih s hr
-      · simp [hab]
 
 theorem reserved_table_facts : ∀ p ∈ C16.reservedPrefixes, p.2 = p.1.length ∧ '\x00' ∉ p.1 := by decide
 
@@ -869,12 +975,6 @@ theorem filterMap_reserved_cards (pre cards : List (List Char))
     exact ih (fun x hx => h x (by simp [hx]))
 
 /-! ### histories -/
-
-/-- operations whose keys and values cfitsio stores verbatim -/
-def PlainOp : Op → Prop
-  | .writeStr k v | .writeText k v => PlainKey k ∧ PlainVal v
-  | .writeInt k _ => PlainKey k
-  | _ => True
 
 /-- the store after a history of operations (what `psvdriver C16` folds over its input lines) -/
 def runOps (st : Store) (ops : List Op) : Store := ops.foldl (fun s op => (step s op).2) st
